@@ -26,8 +26,14 @@ import (
 	"github.com/google/uuid"
 
 	"github.com/Tnze/go-mc/bot"
+	"github.com/Tnze/go-mc/bot/basic"
+	botmsg "github.com/Tnze/go-mc/bot/msg"
+	"github.com/Tnze/go-mc/bot/playerlist"
+	"github.com/Tnze/go-mc/bot/screen"
+	"github.com/Tnze/go-mc/bot/world"
 	"github.com/Tnze/go-mc/chat"
 	"github.com/Tnze/go-mc/data/packetid"
+	"github.com/Tnze/go-mc/level"
 	"github.com/Tnze/go-mc/nbt"
 	mcnet "github.com/Tnze/go-mc/net"
 	pk "github.com/Tnze/go-mc/net/packet"
@@ -1604,6 +1610,184 @@ func srvCut(o *hx.Out, rc *recorded, k int) {
 	}
 }
 
+// ---------------------------------------------------------------- every clientbound play packet id
+
+// a bot with every module of the repository attached (all callbacks set, none failing)
+func newFullClient() *bot.Client {
+	c := bot.NewClient()
+	p := basic.NewPlayer(c, basic.DefaultSettings, basic.EventsListener{
+		GameStart:    func() error { return nil },
+		Disconnect:   func(chat.Message) error { return nil },
+		HealthChange: func(float32, int32, float32) error { return nil },
+		Death:        func() error { return nil },
+		Teleported:   func(x, y, z float64, yaw, pitch float32, flags byte, id int32) error { return nil },
+	})
+	pl := playerlist.New(c)
+	botmsg.New(c, p, pl, botmsg.EventsHandler{
+		SystemChat:        func(chat.Message, bool) error { return nil },
+		PlayerChatMessage: func(chat.Message, bool) error { return nil },
+		DisguisedChat:     func(chat.Message) error { return nil },
+	})
+	world.NewWorld(c, p, world.EventsListener{
+		LoadChunk:   func(level.ChunkPos) error { return nil },
+		UnloadChunk: func(level.ChunkPos) error { return nil },
+	})
+	screen.NewManager(c, screen.EventsListener{
+		Open:    func(int, int32, chat.Message) error { return nil },
+		SetSlot: func(int, int) error { return nil },
+		Close:   func(int) error { return nil },
+	})
+	return c
+}
+
+func be(n int, v uint64) []byte {
+	b := make([]byte, n)
+	for i := n - 1; i >= 0; i-- {
+		b[i] = byte(v)
+		v >>= 8
+	}
+	return b
+}
+
+// valid minimal bodies of the packets the modules read; every other id is sent with an empty body
+// (nothing in the repository reads it).  Ids whose valid body is not built here are listed in skipB.
+func minimalBodies() (map[int32][]byte, map[int32]bool) {
+	text := refNBT(chat.Text("x"))
+	b := map[int32][]byte{
+		int32(packetid.ClientboundKeepAlive):        be(8, 0x0102030405060708),
+		int32(packetid.ClientboundPing):             be(4, 77),
+		int32(packetid.ClientboundSetHealth):        append(append(be(4, 0x41a00000), 20), be(4, 0x40a00000)...),
+		int32(packetid.ClientboundContainerClose):   {0},
+		int32(packetid.ClientboundForgetLevelChunk): be(8, 0x0000000300000004),
+		int32(packetid.ClientboundCookieRequest):    refString("verif:cookie"),
+		int32(packetid.ClientboundStoreCookie):      append(refString("verif:cookie"), append(refVarIntBytes(3), 1, 2, 3)...),
+		int32(packetid.ClientboundSystemChat):       append(append([]byte{}, text...), 0),
+		int32(packetid.ClientboundPlayerInfoRemove): refVarIntBytes(0),
+		int32(packetid.ClientboundUpdateTags):       refVarIntBytes(0),
+		int32(packetid.ClientboundDisguisedChat):    nil,
+	}
+	skip := map[int32]bool{}
+	for _, id := range []packetid.ClientboundPacketID{
+		packetid.ClientboundLogin, packetid.ClientboundRespawn, packetid.ClientboundLevelChunkWithLight,
+		packetid.ClientboundPlayerInfoUpdate, packetid.ClientboundPlayerChat, packetid.ClientboundDisguisedChat,
+		packetid.ClientboundOpenScreen, packetid.ClientboundContainerSetSlot, packetid.ClientboundContainerSetContent,
+		packetid.ClientboundPlayerPosition, packetid.ClientboundDisconnect,
+	} {
+		skip[int32(id)] = true
+	}
+	return b, skip
+}
+
+// Scenario A: every id with hostile / degenerate bodies on a pre-filled queue: an error is fine, a panic is not
+func allIDsDirect(o *hx.Out) {
+	guard := int32(packetid.ClientboundPacketIDGuard)
+	valid, _ := minimalBodies()
+	for id := int32(1); id < guard; id++ {
+		bodies := [][]byte{nil, {0}, bytes.Repeat([]byte{0}, 64), bytes.Repeat([]byte{0xff}, 64), {0x7f, 0x01, 0x02}, o.R.Bytes(40)}
+		if v, ok := valid[id]; ok && v != nil {
+			bodies = append(bodies, v, v[:len(v)/2])
+		}
+		for bi, body := range bodies {
+			c := newFullClient()
+			qr := queue.NewLinkedQueue[pk.Packet]()
+			qr.Push(pk.Packet{ID: id, Data: append([]byte{}, body...)})
+			qr.Close()
+			c.Conn = bot.VerifC19NewConnOn(mcnet.WrapConn(&scriptConn{}), qr, queue.NewLinkedQueue[pk.Packet](), errEnd)
+			var err error
+			pan := hx.Try(func() { err = c.HandleGame() })
+			_ = err
+			o.Eval("play.all-ids.direct", true, fmt.Sprintf("id=%d body=%d", id, bi))
+			if pan != "" {
+				o.Fail("C19.play.all-ids", "HandleGame panicked (%s) on clientbound packet id %d (%v) with body %s", clip(pan), id, packetid.ClientboundPacketID(id), clip(hx.Hex(body)))
+			}
+		}
+	}
+}
+
+// Scenario B: the server sends every clientbound id through the real gate; the bot with all modules
+// attached must dispatch every one of them, in order, and HandleGame must end only with the connection
+func allIDsSession(o *hx.Out, thr int) {
+	guard := int32(packetid.ClientboundPacketIDGuard)
+	valid, skip := minimalBodies()
+	var s2c []playPkt
+	for id := int32(1); id < guard; id++ {
+		if skip[id] {
+			continue
+		}
+		s2c = append(s2c, playPkt{id, valid[id]})
+	}
+	pl := server.NewPlayerList(20)
+	gp := &gameplay{s2c: s2c}
+	srv := &server.Server{
+		ListPingHandler: pingH{pl, server.NewPingInfo("verif", server.ProtocolVersion, chat.Text("motd"), nil)},
+		LoginHandler:    &server.MojangLoginHandler{Threshold: thr},
+		ConfigHandler:   &server.Configurations{Registries: registry.NewNetworkCodec()},
+		GamePlay:        gp,
+	}
+	c1, c2 := net.Pipe()
+	c1.SetDeadline(time.Now().Add(3 * waitFor))
+	c2.SetDeadline(time.Now().Add(3 * waitFor))
+	srvDone := make(chan struct{})
+	go func() {
+		defer close(srvDone)
+		srv.AcceptConn(mcnet.WrapConn(c2))
+	}()
+	client := newFullClient()
+	client.Auth.Name = "AllIds"
+	var mu sync.Mutex
+	var seen []int32
+	client.Events.AddGeneric(bot.PacketHandler{Priority: markerPrio, F: func(p pk.Packet) error {
+		mu.Lock()
+		seen = append(seen, p.ID)
+		mu.Unlock()
+		return nil
+	}})
+	var joinErr, hgErr error
+	var pan string
+	done := make(chan struct{})
+	go func() {
+		defer close(done)
+		pan = hx.Try(func() {
+			joinErr = client.JoinServerWithOptions("example.org:25565", bot.JoinOptions{MCDialer: dialFunc(func(ctx context.Context, a string) (*mcnet.Conn, error) {
+				return mcnet.WrapConn(c1), nil
+			})})
+			if joinErr == nil {
+				hgErr = client.HandleGame()
+			}
+		})
+	}()
+	// the server closes after its writes (AcceptPlayer returns); the bot then gets the end of the stream
+	if !waitCh(srvDone) || !waitCh(done) {
+		o.Fail("C19.hang", "all-ids session made no progress (thr=%d)", thr)
+		c1.Close()
+		c2.Close()
+		hangs++
+		return
+	}
+	o.Eval("play.all-ids.session", true, fmt.Sprintf("thr=%d n=%d", thr, len(s2c)))
+	if pan != "" {
+		o.Fail("C19.play.all-ids", "the bot panicked (%s) while the server sent every clientbound id (thr=%d, last dispatched %v)", clip(pan), thr, seen)
+		return
+	}
+	if joinErr != nil {
+		o.Fail("C19.join.failed", "all-ids session: %v", joinErr)
+		return
+	}
+	var he bot.PacketHandlerError
+	if errors.As(hgErr, &he) {
+		o.Fail("C19.play.all-ids", "a module's handler failed on a valid minimal packet: %v (thr=%d)", hgErr, thr)
+	}
+	mu.Lock()
+	defer mu.Unlock()
+	ok := len(seen) == len(s2c)
+	for i := 0; ok && i < len(seen); i++ {
+		ok = seen[i] == s2c[i].id
+	}
+	if !ok && !errors.As(hgErr, &he) {
+		o.Fail("C19.play.all-ids", "dispatched %d of %d packets or out of order (thr=%d): %v", len(seen), len(s2c), thr, seen)
+	}
+}
+
 // ---------------------------------------------------------------- status ping
 
 func runPing(o *hx.Out, cat string, tcp bool, addr string, players int, motd chat.Message, name string, sched string) {
@@ -2018,6 +2202,12 @@ func main() {
 		}
 	}
 	lap("close")
+	// ---- every clientbound play packet id against a bot with every module attached
+	allIDsDirect(o)
+	for _, thr := range []int{-1, 64} {
+		allIDsSession(o, thr)
+	}
+	lap("all-ids")
 	// ---- status ping
 	motds := []chat.Message{chat.Text("A Minecraft Server"), chat.Text(""), chat.Text("quote \" and \\ and <html> & ünï"), chat.TranslateMsg("multiplayer.status.ok")}
 	for i := 0; i < o.N(16, 4); i++ {
